@@ -195,3 +195,34 @@ pub fn drive_parse_listed<E: Debug + PartialEq>(m: &mut Mon, spec: &'static PSpe
     }
     check_one(m, spec, apis, "", "I8-empty");
 }
+
+/// C11: like drive_parse, plus for every input captured by the default variant the printed value
+/// must be the input again, and the caller's format spec must reach the inner value.
+pub fn drive_capture<E: Debug + PartialEq + std::fmt::Display>(m: &mut Mon, spec: &'static PSpec, apis: &ParseApis<E>) {
+    let mut rng = m.rng("inputs");
+    let lim = if m.tier_thorough { Limits::thorough() } else { Limits::quick() };
+    let inputs = gen_inputs(spec, &mut rng, &lim);
+    let mut k = 0usize;
+    for (s, class) in &inputs {
+        check_one(m, spec, apis, s, CLASSES[*class]);
+        if let Expect::Default(_) = ref_parse(spec, s) {
+            if let Ok(Ok(v)) = std::panic::catch_unwind(std::panic::AssertUnwindSafe(|| (apis.from_str)(s))) {
+                k += 1;
+                let printed = std::panic::catch_unwind(std::panic::AssertUnwindSafe(|| v.to_string()));
+                m.event_fast(Some(hash_of(&("roundtrip", s))));
+                m.count("capture/print-roundtrip");
+                match printed {
+                    Ok(p) => {
+                        if p != *s {
+                            m.viol(&format!("capture:roundtrip:{}", CLASSES[*class]), jobj(&[("api", jstr("from_str(s)?.to_string()")), ("input", jstr(s)), ("expected", jstr(s)), ("observed", jstr(&p))]));
+                        }
+                    }
+                    Err(e) => m.viol("capture:roundtrip:panic", jobj(&[("api", jstr("from_str(s)?.to_string()")), ("input", jstr(s)), ("expected", jstr(s)), ("observed", jstr(&format!("panic: {}", crate::panic_msg(&e))))])),
+                }
+                if k % 40 == 1 && s.len() < 64 {
+                    crate::fmt::fmt_grid(m, "capture-fmt", &format!("{:?}", v), &v, s.as_str(), 12, 6, true);
+                }
+            }
+        }
+    }
+}
